@@ -742,7 +742,145 @@ def r14(ctx):
         raise AnalysisBroken('C14.R14: bounded update of m_arbitrationCheck not found')
 
 
+def r15(ctx):
+    ctx.mark('decoder-incomplete', 'C14.R15')
+    ctx.rule('C14.R15', 'RESULT_CONTINUE promises that another complete item is buffered: on a path on which '
+             'handleEnhancedBufferedData stopped because the second byte of a sequence has not arrived yet (len < pos + 2) the '
+             'value returned is not RESULT_CONTINUE - decided by following that path to the return statement with the facts '
+             'that hold on it (constant flags, locals that still equal the buffer length, the loop condition); otherwise the '
+             'caller comes back at once with timeout 0, sees nothing and gives up in the middle of a telegram', minimum=1)
+    import re
+    fb = ctx.fb
+    fn = fb.fn(DEC)
+    ctx.touch(fn)
+    lenp = fn.P(1)
+    cont = None
+    for en, e in fb.enums.items():
+        for x in e['enumerators']:
+            if x['name'] == 'RESULT_CONTINUE':
+                cont = x['v']
+    stops = set()
+    for b in fn.all('BreakStmt', 'ReturnStmt'):
+        for k, p in ((a[0], a[1]) for a in fn.atoms(b)):
+            if p and re.match(r'^\(%s < \(\w+ \+ #2\)\)$' % re.escape(lenp), k):
+                stops.add(b)
+    if not stops or cont is None:
+        raise AnalysisBroken('C14.R15: the stop for an incomplete sequence (len < pos + 2) not found')
+    simple = lambda x: fn.nodes[fn.strip(x, casts=True)].get('k') == 'DeclRefExpr' and fn.nodes[fn.strip(x, casts=True)].get('rk') in ('local', 'param')
+    name = lambda x: fn.nodes[fn.strip(x, casts=True)].get('name')
+    writes = {}
+    for nid, d, rhs, op, lhs in fn.assignments():
+        if d and ':' in d:
+            writes[nid] = (d.split(':')[-1], rhs, op)
+    bad = []
+
+    def norm(nm, eqs):
+        for a, b in eqs:
+            if nm == a:
+                return b
+        return nm
+
+    def value(x, consts, eqs, rel):
+        """set of possible constant results of a return expression, None if not decidable"""
+        x = fn.strip(x, casts=True)
+        v = fn.nodes[x]
+        if fn.val(x) is not None and v['k'] != 'DeclRefExpr':
+            return {fn.val(x)}
+        if v['k'] == 'DeclRefExpr':
+            if v.get('rk') == 'enumerator':
+                return {v.get('v')}
+            c = dict(consts).get(v.get('name'))
+            return {c} if c is not None else None
+        if v['k'] == 'ConditionalOperator':
+            cv = fn.nodes[fn.strip(v['cond'], casts=True)]
+            truth = None
+            if cv['k'] == 'DeclRefExpr':
+                truth = dict(consts).get(cv.get('name'))
+            elif cv['k'] == 'BinaryOperator' and cv.get('op') in ('<', '<=', '>', '>=') and simple(cv['lhs']) and simple(cv['rhs']):
+                l, r = norm(name(cv['lhs']), eqs), norm(name(cv['rhs']), eqs)
+                op = cv['op']
+                if op in ('>', '>='):
+                    l, r, op = r, l, {'>': '<', '>=': '<='}[op]
+                if (l, '<', r) in rel:
+                    truth = 1
+                elif (r, '<=', l) in rel or (r, '<', l) in rel and op == '<=':
+                    truth = 0
+            if truth is None:
+                a, b = value(v['then'], consts, eqs, rel), value(v['else'], consts, eqs, rel)
+                return None if a is None or b is None else (a | b if False else None)
+            return value(v['then'] if truth else v['else'], consts, eqs, rel)
+        return None
+
+    def on_elem(user, e, path):
+        seen, consts, eqs, rel = user
+        v = fn.nodes[e]
+        if e in stops:
+            seen = True
+        if v['k'] == 'DeclStmt':
+            for dd in v.get('decls', []):
+                if dd.get('init') is None:
+                    continue
+                iv = fn.nodes[fn.strip(dd['init'], casts=True)]
+                if fn.val(dd['init']) is not None and iv.get('k') != 'DeclRefExpr':
+                    consts = frozenset(set(consts) | {(dd['name'], fn.val(dd['init']))})
+                elif iv.get('k') == 'DeclRefExpr' and iv.get('rk') in ('local', 'param'):
+                    eqs = frozenset(set(eqs) | {(dd['name'], iv.get('name'))})
+        if e in writes:
+            nm, rhs, op = writes[e]
+            if op != 'init':
+                consts = frozenset(x for x in consts if x[0] != nm)
+                eqs = frozenset(x for x in eqs if nm not in x)
+                rel = frozenset(x for x in rel if nm not in (x[0], x[2]))
+                if op == '=' and rhs is not None and fn.val(rhs) is not None:
+                    consts = frozenset(set(consts) | {(nm, fn.val(rhs))})
+        if v['k'] == 'ReturnStmt':
+            if seen and v.get('val') is not None:
+                got = value(v['val'], consts, eqs, rel)
+                if got is not None and cont in got:
+                    bad.append(e)
+            return None
+        return (seen, consts, eqs, rel)
+
+    def on_edge(user, b, j, dnf):
+        seen, consts, eqs, rel = user
+        # an edge that contradicts a constant known for a variable is not taken (len = 0; ... if (len == 0) break;)
+        cd = dict(consts)
+        feasible = False
+        for conj in dnf:
+            ok_ = True
+            for a in conj:
+                k_, p_ = facts.atom_key(fn, a)
+                m_ = re.match(r'^\((\w+) == #(-?\d+)\)$', k_)
+                if m_ and m_.group(1) in cd and ((cd[m_.group(1)] == int(m_.group(2))) != bool(p_)):
+                    ok_ = False
+                if re.match(r'^\w+$', k_) and k_ in cd and (bool(cd[k_]) != bool(p_)):
+                    ok_ = False
+            feasible = feasible or ok_
+        if not feasible:
+            return None
+        if len(dnf) == 1:
+            for a in dnf[0]:
+                k_, p_ = facts.atom_key(fn, a)
+                if p_ and re.match(r'^\(%s < \(\w+ \+ #2\)\)$' % re.escape(lenp), k_):
+                    seen = True     # the stop for an incomplete sequence is taken
+                if a[0] == 'cmp' and not isinstance(a[3], tuple) and simple(a[1]) and simple(a[3]) and a[2] in ('<', '<=', '>', '>='):
+                    l, r, op = norm(name(a[1]), eqs), norm(name(a[3]), eqs), a[2]
+                    if op in ('>', '>='):
+                        l, r, op = r, l, {'>': '<', '>=': '<='}[op]
+                    rel = frozenset(set(rel) | {(l, op, r)})
+                elif a[0] == 'b' and re.match(r'^\w+$', a[1]):
+                    consts = frozenset(set(x for x in consts if x[0] != a[1]) | {(a[1], 1 if a[2] else 0)})
+        return (seen, consts, eqs, rel)
+    ex = facts.Explorer(fn, on_elem=on_elem, on_edge=on_edge)
+    ex.corr = set()
+    ex.run(fn.entry, 0, (False, frozenset(), frozenset(), frozenset()), max_states=400000)
+    ctx.ob('C14.R15', fn, sorted(stops)[0], not bad, 'result after an incomplete sequence',
+           'RESULT_CONTINUE is returned at line(s) %s on a path that stopped for the missing second byte' % sorted(set(fn.line_of(x) for x in bad))
+           if bad else 'no return of RESULT_CONTINUE is decided on such a path')
+
+
 def run(ctx):
+    r15(ctx)
     r12(ctx)
     r13(ctx)
     r14(ctx)
